@@ -38,8 +38,10 @@ def _replay_r1(m):
     steps += _mints([('pool_manager', [('uA', m['pm_balance_A']), ('uB', m['pm_balance_B'])]),
                      ('sink', [('uA', m['supply_A'] - m['pm_balance_A']), ('uB', m['supply_B'] - m['pm_balance_B'])]), ('trader', [('uA', m['offer'])])])
     steps.append({'op': 'query', 'contract': 'pool_manager', 'msg': {'simulation': {'offer_asset': coin_j('uA', m['offer']), 'ask_asset_denom': 'uB', 'pool_identifier': 'p1'}}})
-    steps.append({'op': 'execute', 'contract': 'pool_manager', 'sender': 'trader', 'funds': [coin_j('uA', m['offer'])],
-                  'msg': {'swap': {'ask_asset_denom': 'uB', 'max_slippage': dec_j(m['max_slippage_atomics']), 'pool_identifier': 'p1'}}})
+    sw = {'ask_asset_denom': 'uB', 'max_slippage': dec_j(m['max_slippage_atomics']), 'pool_identifier': 'p1'}
+    if m.get('_choices', {}).get('receiver', 0) == 1:
+        sw['receiver'] = '@fee_collector'
+    steps.append({'op': 'execute', 'contract': 'pool_manager', 'sender': 'trader', 'funds': [coin_j('uA', m['offer'])], 'msg': {'swap': sw}})
     return {'setup': {}, 'steps': steps}, len(steps) - 1
 
 
@@ -60,7 +62,10 @@ def r1(I):
     qs, sim = run_query(I, query_msg('Simulation', offer_asset=coin_v('uA', o), ask_asset_denom='uB', pool_identifier='p1'))
     ch = Chain(I, CONTRACTS)
     pre = b.snapshot()
-    st, resp = ch.execute('trader', PM, swap_msg('uB', 'p1', max_slippage=Some(tol)), [coin_v('uA', o)])
+    # whoever receives the proceeds -- the sender, or (a corner that merges two transfers to one address) the fee collector itself
+    to_fc = I.choose(2, 'receiver') == 1
+    I.assume(I.addr_valid('fee_collector'))
+    st, resp = ch.execute('trader', PM, swap_msg('uB', 'p1', max_slippage=Some(tol), receiver=Some('fee_collector') if to_fc else None), [coin_v('uA', o)])
     if st != 'ok':
         I.outcome('swap_rejected')
         return
@@ -71,8 +76,13 @@ def r1(I):
     if qs != 'ok':
         return
     I.observe('sim_return', sim.get('return_amount'))
-    I.check('return_amount_equal', smt.Eq(sim.get('return_amount'), b.get('trader', 'uB') - pre.get('trader', 'uB')))
-    I.check('protocol_fee_equal', smt.Eq(sim.get('protocol_fee_amount'), b.get('fee_collector', 'uB') - pre.get('fee_collector', 'uB')))
+    d_trader = simp(b.get('trader', 'uB') - pre.get('trader', 'uB'))
+    d_fc = simp(b.get('fee_collector', 'uB') - pre.get('fee_collector', 'uB'))
+    if to_fc:
+        I.check('return_amount_equal', smt.And(smt.Eq(d_trader, 0), smt.Eq(d_fc, sim.get('return_amount') + sim.get('protocol_fee_amount'))))
+    else:
+        I.check('return_amount_equal', smt.Eq(sim.get('return_amount'), d_trader))
+        I.check('protocol_fee_equal', smt.Eq(sim.get('protocol_fee_amount'), d_fc))
     I.check('burn_fee_equal', smt.Eq(sim.get('burn_fee_amount'), pre.supply['uB'] - b.supply['uB']))
     x2, y2 = reserves_of(get_pool(I, 'p1'))
     I.check('swap_and_extra_fee_stay_in_pool', smt.Eq(y - y2, sim.get('return_amount') + sim.get('protocol_fee_amount') + sim.get('burn_fee_amount')))
